@@ -141,6 +141,19 @@ def run(tier, seed):
     text3 = '\n'.join(t for _, t in kept) + '\n'
     do_source('S3-mutants', text3, sorted(labels), [(2000, 2050)] + ([(2000, 2038), (2010, 2030)] if thorough else [(2010, 2030)]),
               labels=labels, arduino=({'step': 3600, 'win': 3 * 3600} if thorough else {'step': 4 * 3600, 'win': 2 * 3600}))
+    # ---- S4: era chains with whole-year UNTIL (the multi-era shape the basic scope admits), exhaustive products
+    rules4, chains = mutants.era_chains()
+    kept4, rej4 = zic_filter([('rules', rules4)] + [(i, c[3]) for i, c in enumerate(chains)], 'S4')
+    kept4set = {k for k, _ in kept4}
+    if 'rules' not in kept4set:
+        raise Broken('zic rejects the era-chain policies')
+    kept4set.discard('rules')
+    cov['era_chains'] = len(kept4set); cov['era_chains_rejected_by_zic'] = len(rej4)
+    labels4 = {c[4]: (c[0], c[1], c[2], c[3]) for i, c in enumerate(chains) if i in kept4set}
+    text4 = rules4 + '\n' + '\n'.join(c[3] for i, c in enumerate(chains) if i in kept4set) + '\n'
+    do_source('S4-erachains', text4, sorted(labels4), [(2000, 2050)] + ([(2006, 2040)] if thorough else []),
+              labels=labels4, arduino=({'step': 900, 'win': 3 * 3600} if thorough else {'step': 3600, 'win': 2 * 3600}))
+    samples += [{'era_chain': labels4[z][2], 'source_text': labels4[z][3]} for z in sorted(labels4)[200:202]]
     samples += [{'mutant': labels[z][2], 'seed': labels[z][0], 'source_text': labels[z][3]} for z in sorted(labels)[100:103]]
     rep.coverage.update(cov)
     rep.assumptions += [
